@@ -20,6 +20,42 @@ using namespace sqf::types;
 
 namespace
 {
+    // Keys are captured by value: the map must not be reachable through the value that was used as key (changing
+    // a key array afterwards would change its hash while the entry stays in its old bucket).
+    value copy_key(value::cref key)
+    {
+        if (key.is<t_array>())
+        {
+            std::vector<value> copy;
+            for (auto& it : *key.data<d_array>())
+            {
+                copy.push_back(copy_key(it));
+            }
+            return std::make_shared<d_array>(std::move(copy));
+        }
+        if (key.is<t_hashmap>())
+        {
+            std::unordered_map<value, value> copy;
+            for (auto& it : key.data<d_hashmap>()->map())
+            {
+                copy[copy_key(it.first)] = copy_key(it.second);
+            }
+            return std::make_shared<d_hashmap>(std::move(copy));
+        }
+        return key;
+    }
+    void insert_or_assign(std::unordered_map<value, value>& map, value::cref key, value::cref val)
+    {
+        auto res = map.find(key);
+        if (res == map.end())
+        {
+            map[copy_key(key)] = val;
+        }
+        else
+        {
+            res->second = val;
+        }
+    }
     value createhashmap_(runtime& runtime)
     {
         return std::make_shared<d_hashmap>();
@@ -39,7 +75,7 @@ namespace
                     auto& key = subArr->at(0);
                     auto& value = subArr->at(1);
                     // ToDo: Check key-type matches
-                    hashmap[key] = value;
+                    insert_or_assign(hashmap, key, value);
                 }
                 else
                 {
@@ -70,7 +106,7 @@ namespace
             auto& key = arr->at(0);
             auto& value = arr->at(1);
             // ToDo: Check key-type matches
-            data->map()[key] = value;
+            insert_or_assign(data->map(), key, value);
         }
         else
         {
@@ -127,7 +163,7 @@ namespace
         auto data = right.data<d_hashmap>();
         for (auto& it : data->map())
         {
-            keys.push_back(it.first);
+            keys.push_back(copy_key(it.first));
         }
         return std::make_shared<d_array>(keys);
     }
